@@ -24,6 +24,7 @@ import (
 	"fmt"
 	"go/constant"
 	"go/token"
+	"go/types"
 
 	"golang.org/x/tools/go/ssa"
 )
@@ -89,9 +90,59 @@ func (a *allocSem) fail(pos token.Pos, format string, args ...any) {
 }
 
 type aRet struct {
-	st   aState
-	vals []aVal
-	ins  *ssa.Return
+	st     aState
+	vals   []aVal
+	ins    *ssa.Return
+	errNil int // last result: 1 = the constant nil error, -1 = some error value, 0 = no error result / unknown
+}
+
+var errorType = types.Universe.Lookup("error").Type()
+
+// forwarded: the return hands on, unchanged and in order, the results of one call made in the same
+// block with nothing but the extractions in between; returns that call.
+func forwarded(ret *ssa.Return, b *ssa.BasicBlock) *ssa.Call {
+	if len(ret.Results) == 0 {
+		return nil
+	}
+	var call *ssa.Call
+	if len(ret.Results) == 1 {
+		c, ok := ret.Results[0].(*ssa.Call)
+		if !ok {
+			return nil
+		}
+		call = c
+	} else {
+		for i, r := range ret.Results {
+			ex, ok := r.(*ssa.Extract)
+			if !ok || ex.Index != i {
+				return nil
+			}
+			c, ok := ex.Tuple.(*ssa.Call)
+			if !ok || (call != nil && c != call) {
+				return nil
+			}
+			call = c
+		}
+	}
+	if call == nil || call.Block() != b {
+		return nil
+	}
+	after := false
+	for _, ins := range b.Instrs {
+		if ins == ssa.Instruction(call) {
+			after = true
+			continue
+		}
+		if !after {
+			continue
+		}
+		switch ins.(type) {
+		case *ssa.Extract, *ssa.Return, *ssa.DebugRef:
+		default:
+			return nil
+		}
+	}
+	return call
 }
 
 // run analyses fn with the receiver value recv (fn.Params[0]) from state st0; args are the tags of
@@ -103,6 +154,8 @@ func (a *allocSem) run(fn *ssa.Function, st0 aState, args []aVal, depth int, top
 	recv := ssa.Value(fn.Params[0])
 	vals := map[ssa.Value]aVal{}
 	tup := map[ssa.Value][]aVal{}
+	helperRets := map[*ssa.Call][]aRet{}
+	fwd := map[*ssa.Return][]aRet{}
 	for i, p := range fn.Params[1:] {
 		if i < len(args) {
 			vals[p] = args[i]
@@ -224,6 +277,9 @@ func (a *allocSem) run(fn *ssa.Function, st0 aState, args []aVal, depth int, top
 					if c, isC := x.Value.(*ssa.Const); isC && c.Value != nil && c.Value.Kind() == constant.Bool && constant.BoolVal(c.Value) {
 						okVal = true
 					}
+					if stt, isSt := x.Value.Type().Underlying().(*types.Struct); isSt && stt.NumFields() == 0 {
+						okVal = true // a set (map[K]struct{}): presence is the mark
+					}
 					switch {
 					case k.k != akOff || k.ver != st.ver || !okVal:
 						a.fail(x.Pos(), "%s: the identifier is not marked as used[offset] = true for the current offset", fn.Name())
@@ -250,6 +306,7 @@ func (a *allocSem) run(fn *ssa.Function, st0 aState, args []aVal, depth int, top
 					a.ctx = fmt.Sprintf("%s>%p", a.ctx, x)
 					rs := a.run(callee, st, cargs, depth+1, false)
 					a.ctx = saved
+					helperRets[x] = rs
 					// join the helper's returns
 					var js aState
 					js.dead = true
@@ -300,11 +357,32 @@ func (a *allocSem) run(fn *ssa.Function, st0 aState, args []aVal, depth int, top
 				prop(b.Succs[0], st)
 				done = true
 			case *ssa.Return:
+				// `return helper(...)` / `id, err := helper(...); return id, err`: every outcome of the
+				// helper is an outcome of this function (kept apart, not joined)
+				if fw := forwarded(x, b); fw != nil {
+					if hr, ok := helperRets[fw]; ok {
+						delete(rets, x)
+						fwd[x] = nil
+						for _, r := range hr {
+							fwd[x] = append(fwd[x], aRet{st: r.st, vals: r.vals, ins: x, errNil: r.errNil})
+						}
+						done = true
+						break
+					}
+				}
 				var rv []aVal
 				for _, r := range x.Results {
 					rv = append(rv, val(r))
 				}
-				rets[x] = aRet{st: st, vals: rv, ins: x}
+				ar := aRet{st: st, vals: rv, ins: x}
+				if n := len(x.Results); n > 0 {
+					if c, isC := x.Results[n-1].(*ssa.Const); isC && c.Value == nil && types.Identical(c.Type(), errorType) {
+						ar.errNil = 1
+					} else if !isC {
+						ar.errNil = -1
+					}
+				}
+				rets[x] = ar
 				done = true
 			case *ssa.Panic:
 				done = true
@@ -317,7 +395,9 @@ func (a *allocSem) run(fn *ssa.Function, st0 aState, args []aVal, depth int, top
 	var out []aRet
 	for _, b := range fn.Blocks {
 		if r, ok := b.Instrs[len(b.Instrs)-1].(*ssa.Return); ok {
-			if rr, has := rets[r]; has {
+			if f, has := fwd[r]; has && f != nil {
+				out = append(out, f...)
+			} else if rr, has := rets[r]; has {
 				out = append(out, rr)
 			}
 		}
@@ -358,8 +438,14 @@ func checkAllocFresh(w *World, fn *ssa.Function) (problems []string, marks, succ
 		if r.ins == nil || len(r.ins.Results) != 2 {
 			continue
 		}
-		if c, isC := r.ins.Results[1].(*ssa.Const); !isC || c.Value != nil {
-			continue // an error return
+		if r.errNil != 1 {
+			if r.errNil == 0 {
+				if c, isC := r.ins.Results[1].(*ssa.Const); !isC || c.Value != nil {
+					continue
+				}
+			} else {
+				continue // an error return
+			}
 		}
 		a.succ++
 		switch {
